@@ -36,6 +36,8 @@ Inductive site :=
 | SExtractEmpty  (* errors[0] in CompositeExtractStrategy.GetAuthData *)
 | SNilBlock      (* block.Type on the nil result of pem.Decode in pemx.ReadPEM *)
 | SScopes        (* v.(string) / name.(string) / values.([]any) / k.(string) in oauth2.DecodeScopesMatcherHookFunc *)
+| SActiveIn      (* usedBy[1] on the split of RuleSet.Status.ActiveIn in the kubernetes provider's updateStatus *)
+| SStatusErr     (* statusErr.ErrStatus after an errors.As that did not match, same function *)
 | SDecode        (* mapstructure (ErrorUnused) on a YAML mapping with a non-string key, under config.DecodeConfig *)
 | SOther.
 
@@ -43,7 +45,7 @@ Definition site_eqb (a b : site) : bool :=
   match a, b with
   | SEntries0, SEntries0 | SKeySize, SKeySize | SSigKeySize, SSigKeySize | SIdAssert, SIdAssert
   | SGetConfig, SGetConfig | SStatNil, SStatNil | SChainLoop, SChainLoop | SMech, SMech
-  | SExtractEmpty, SExtractEmpty | SNilBlock, SNilBlock | SDecode, SDecode | SScopes, SScopes
+  | SExtractEmpty, SExtractEmpty | SNilBlock, SNilBlock | SDecode, SDecode | SScopes, SScopes | SActiveIn, SActiveIn | SStatusErr, SStatusErr
   | SOther, SOther => true
   | _, _ => false
   end.
@@ -67,10 +69,12 @@ Record fixes := {
   fx8 : bool;   (* C19-F8: parseYAML rejects mappings with non-string keys *)
   fx9 : bool;   (* C19-F9: checked assertions in the scopes-matcher decode hook *)
   fx10 : bool;  (* C19-F10: readPEMContents / pemx.ReadPEM reject undecodable trailing data (and a file without any block) *)
+  fx12 : bool;  (* C19-F12: updateStatus does not index a missing second part of status.activeIn *)
+  fx13 : bool;  (* C19-F13: updateStatus checks the result of errors.As *)
   fx18 : bool }. (* C18-F2 (not a C19 finding): every fsnotify event re-examines the file *)
 
-Definition no_fixes := {| fx1 := false; fx2 := false; fx3 := false; fx4 := false; fx5 := false; fx6 := false; fx7 := false; fx8 := false; fx9 := false; fx10 := false; fx18 := false |}.
-Definition all_fixes := {| fx1 := true; fx2 := true; fx3 := true; fx4 := true; fx5 := true; fx6 := true; fx7 := true; fx8 := true; fx9 := true; fx10 := true; fx18 := true |}.
+Definition no_fixes := {| fx1 := false; fx2 := false; fx3 := false; fx4 := false; fx5 := false; fx6 := false; fx7 := false; fx8 := false; fx9 := false; fx10 := false; fx12 := false; fx13 := false; fx18 := false |}.
+Definition all_fixes := {| fx1 := true; fx2 := true; fx3 := true; fx4 := true; fx5 := true; fx6 := true; fx7 := true; fx8 := true; fx9 := true; fx10 := true; fx12 := true; fx13 := true; fx18 := true |}.
 
 (** * Key store *)
 
@@ -620,4 +624,28 @@ Fixpoint fs_run (f : fixes) (st : option nat) (es : list fs_event) : run (option
               | FsDone x => fs_run f (fr_state x) r
               | FsExit s => Dead s
               end
+  end.
+
+(** * Kubernetes provider: updateStatus, run by every informer callback (add / update / delete of a
+    RuleSet) on client-go's informer goroutine, whose HandleCrash re-panics.  A try is one pass:
+    the number of "/"-separated parts of status.activeIn as the API delivered it ("" is taken as
+    "0/0"), the answer of PatchStatus, and - after a conflict - whether re-reading the RuleSet
+    worked; a conflict leads to the next try with the re-read object. *)
+Inductive patch_res := PatchOk | PatchStatusErr (code : Z) | PatchOtherErr.   (* other: not a *StatusError (connection refused, timeout …) *)
+Record us_try := { t_parts : nat; t_patch : patch_res; t_get_ok : bool }.
+
+(** result: the number of PatchStatus calls made *)
+Fixpoint update_status (f : fixes) (tries : list us_try) : res nat :=
+  match tries with
+  | [] => Ok 0
+  | t :: r =>
+    if Nat.ltb (t_parts t) 2 && negb (fx12 f) then Panic SActiveIn else
+    match t_patch t with
+    | PatchOk => Ok 1
+    | PatchOtherErr => if fx13 f then Ok 1 else Panic SStatusErr
+    | PatchStatusErr c =>
+      if (Z.eqb c 409 || Z.eqb c 422)%bool && t_get_ok t
+      then bind (update_status f r) (fun n => Ok (S n))
+      else Ok 1                                      (* 404: gone; other codes and a failed Get: logged *)
+    end
   end.
